@@ -536,7 +536,7 @@ def r_stmt(st, style=PLAIN, indent=""):
     elif k == "simple":
         body = style.caseflip(st.d) + ((" " + ", ".join(st.args)) if st.args else "")
     elif k == "include":
-        body = style.caseflip(".include") + f' "{st.path}"'
+        body = style.caseflip(".include") + f' "{getattr(st, "spell", None) or st.path}"'
     elif k == "insert":
         body = style.caseflip("insert_file") + f' "{st.path}"'
     elif k == "extern":
